@@ -144,6 +144,8 @@ func corpus(w *lib.Writer) {
 		{Init: lit("abc\ndef\n12\nrest"), Ops: []Op{open("r"), rd(0, Fmt{K: "line", Long: true}), rd(0, fl, Fmt{K: "num", Long: true}), rd(0, Fmt{K: "all", Long: true}), op("close", 0), snp}, Flavour: "num"},
 		// flush/setvbuf on a handle that is only read succeed; the standard files are not closed
 		{Init: lit("abc"), Ops: []Op{open("r"), op("flush", 0), vb(0, "full", 0), vb(0, "no", 0), wr(0, "x"), Op{T: "stdclose", Which: "stdout"}, Op{T: "stdclose", Which: "stderr"}, op("close", 0), snp}},
+		// an explicit nil is an absent optional argument
+		{Init: lit("abcdef\ng\n"), Ops: []Op{Op{T: "open", Mode: "r", NilArg: true}, rd(0, cnt(2)), Op{T: "seek", H: 0, Whence: "cur", Off: 2, NilArg: true}, Op{T: "seek", H: 0, Whence: "set", NilArg: true}, Op{T: "seek", H: 0, Whence: "cur", NilArg: true}, Op{T: "lines", H: 0, K: 1, Via: "io", NilArg: true}, op("close", 0), snp}},
 		// boundaries: counts across the buffer, read(0) at the end, holes
 		{Init: encode(patterned(0, 9000)), Ops: []Op{open("r+"), rd(0, cnt(4095)), rd(0, cnt(2)), rd(0, cnt(5000)), rd(0, cnt(0)), rd(0, cnt(1)), sk(0, "set", 4096), wr(0, "ZZ"), sk(0, "cur", -3), rd(0, cnt(4)), sk(0, "end", 5), wr(0, "!"), op("close", 0), snp}},
 		{Init: encode(patterned(0, 4096)), Ops: []Op{open("r"), rd(0, cnt(4096)), rd(0, cnt(0)), sk(0, "set", -1), sk(0, "end", -1), rd(0, fa), rd(0, fa), rd(0, fl), op("close", 0), snp}},
